@@ -26,7 +26,7 @@ ASSUMPTIONS = [
     "allowed differences: STRT/STOP/STEP values, STRT/STOP/STEP and index-curve units, empty value with a unit -> 0",
 ]
 REQUIRED = ["write_read_pairs", "items_compared", "cases_widest_item_has_empty_value", "cases_blank_mnemonic", "cases_duplicate_mnemonic",
-            "version_1.2", "version_2.0", "case_upper", "case_lower", "case_preserve", "other_text_compared", "second_generation_round_trips", "cases_header_line_over_256_chars"]
+            "version_1.2", "version_2.0", "case_upper", "case_lower", "case_preserve", "other_text_compared", "second_generation_round_trips", "cases_header_line_over_256_chars", "other_text_with_empty_lines"]
 SOFT_DEADLINE = {"quick": 90, "thorough": 1500}
 LEVEL_TEXT = ("Exploration: every item of every section is compared after a write->read cycle; the generators rotate which item "
               "determines the section's column widths, since one line's correctness depends on all other items of its section.")
@@ -131,7 +131,12 @@ def make_spec(rng, mode=None):
             fix_blank(it)
     spec["short_default_descr"] = rng.choice([0, 0, 1, 2, 3])
     other = [fields.text(rng, colons=True) for _ in range(rng.randint(0, 3))]
-    spec["Other"] = "\n".join(s for s in other if s and not s.startswith("~"))
+    other = [s for s in other if s and not s.startswith("~")]
+    if len(other) >= 2 and rng.random() < 0.5:
+        # paragraphs: empty (or blank-only) lines between text lines are part of the ~Other text
+        for _ in range(rng.randint(1, 3)):
+            other.insert(rng.randint(1, len(other) - 1), rng.choice(["", "", "   "]))
+    spec["Other"] = "\n".join(other)
     return spec
 
 
@@ -295,6 +300,8 @@ def run_case(case, ctx):
                                       "%s after read(%s) -> write -> read: %d items, item #%d %r; before: %d items, item #%d %r" % (
                                           name, mc, len(got2), k, got2[k:k + 1], len(w2), k, w2[k:k + 1]), {"text": text, "second text": b2.getvalue(), "version": version})
         ctx.count("other_text_compared")
+        if any(not ln.strip() for ln in spec["Other"].splitlines()):
+            ctx.count("other_text_with_empty_lines")
         want_other = "\n".join(s.strip() for s in spec["Other"].splitlines())
         if back.other != want_other:
             ctx.violation("other-text-changed", "~Other %r -> %r" % (want_other, back.other), {"text": text})
